@@ -172,7 +172,12 @@ fn model_for(occ: &[(char, String)], r: &mut Rng) -> Model {
 }
 
 fn check_case(out: &mut Out, ast: &Ast, mode: Parens, r: &mut Rng) {
-    let toks = render_ast(ast, mode, Some(r), true);
+    let mut toks = render_ast(ast, mode, Some(r), true);
+    if r.chance(1, 4) {
+        // numbers are never identifiers, however they are written (`0x1e-3`, `2E+7`)
+        let k = crate::gen::respell_literals(&mut toks, r);
+        out.count_n("literals respelled (hexadecimal, exponent)", k as u64);
+    }
     // mostly single-spaced; now and then tight or under a random separator plan (comments, Unicode whitespace)
     let src = match r.below(8) {
         0 => crate::gen::render_tight(&toks),
@@ -397,8 +402,8 @@ impl Phase for Random {
         let depth = r.range(1, 12);
         let distinct = r.chance(1, 2);
         let ast = {
-            let vars = ["a", "b", "c", "x", "f", "g", "total", "ī", "нx", "ȫ", "ш", "a.b", "x'", "#q"];
-            let funs = ["f", "g", "h", "max", "len", "math::clamp", "str::nope", "ns::f", "math::len", "a::b::c", "a", "total"];
+            let vars = ["a", "b", "c", "x", "f", "g", "total", "ī", "нx", "ȫ", "ш", "a.b", "x'", "#q", "a\u{feff}b", "n\u{feff}", "\u{feff}z", "a\u{200b}", "r", "b"];
+            let funs = ["f", "g", "h", "max", "len", "math::clamp", "str::nope", "ns::f", "math::len", "a::b::c", "a", "total", "r", "r", "b", "f\u{feff}"];
             let mut g = AstGen {
                 r,
                 vars: &vars,
